@@ -125,4 +125,17 @@ theorem ciVals_length (mode : Nat) (hm : mode ≤ 2) (ks : Knots) (hs : Sorted k
   rw [this, sequence_map_val]
   simp
 
+/-- the executable well-formedness check is sound -/
+theorem wfb_sound (I : Inst) (h : I.wfb = true) : I.WF := by
+  unfold Inst.wfb at h
+  simp only [Bool.and_eq_true, List.all_eq_true, List.mem_range, beq_iff_eq, decide_eq_true_eq,
+    Bool.not_eq_true', List.isEmpty_eq_false_iff] at h
+  obtain ⟨⟨h1, h2⟩, h3⟩ := h
+  exact {
+    par_len := fun m hm => (h1 m hm).1
+    cin_sorted := fun m j hm hj => ((h1 m hm).2 j hj).1
+    cin_ne := fun m j hm hj => ((h1 m hm).2 j hj).2
+    cmode_ok := fun j hj => h2 j hj
+    nd_le := h3 }
+
 end RtcVerif.C01
